@@ -310,6 +310,9 @@ def malformed_random(ctx, n):
 
 
 def run_shard(ctx):
+    if ctx.thorough:
+        from vf import fuzz
+        fuzz.run(ctx, ID, 90, FUZZ_SEEDS)
     malformed_exhaustive(ctx, 7 if ctx.thorough else 6)
     roundtrip_random(ctx, ctx.n(20000, 400000))
     roundtrip_allcuts(ctx, ctx.n(2000, 40000))
@@ -326,3 +329,17 @@ def replay(case):
         if mode == 'disabled' and ESC_LOOK.match(text):
             return []
     return judge_roundtrip(replies, sorted(set(int(c) for c in case.get('cuts', []))))
+
+
+# -- coverage-guided tier (atheris) ---------------------------------------------------------------------
+
+def fuzz_target(data):
+    if len(data) < 2:
+        return None, []
+    ncuts = data[0] % 5
+    cuts = tuple(sorted(set(c for c in data[1:1 + ncuts] if c)))
+    payload = data[1 + ncuts:]
+    return {'kind': 'malformed', 'data': hexb(payload), 'cuts': list(cuts)}, judge_malformed(payload, cuts)
+
+
+FUZZ_SEEDS = [b'\x00250 ok\r\n', b'\x01\x05250-a\r\n250 b\r\n', b'\x00550 5.1.1 no\r\n250 next\r\n']
